@@ -7,6 +7,7 @@ TRUSTED = [
     "tools/extract (go/ast): redirect-sink, pending-destination and destination-read tables; harvested cookie / parameter names",
     "model of net/http.Redirect + path.Clean + hexEscapeNonASCII (Go 1.24) validated by the correspondence on every run",
     "WHATWG same-origin rule as encoded in Model.Dest.same_origin and harness verifSameOrigin",
+    "WHATWG resolution of an observed Location header (special schemes, slash/backslash runs, dot segments) as encoded in harness c17Resolve / c17LocationAllowed and, for the external-URL dimension, Model.DestExt.under_ext (literal-prefix form, stricter)",
 ]
 
 # (prefix of the definitions printed by the case file, label, idx file, suffix of the model-oracle key)
@@ -14,6 +15,7 @@ LISTS = [
     ("c17", "location(model)=Location(impl)", "CasesC17.idx", ""),
     ("c17_flow", "login prompt of a protected page -> provider round trip: prompt kind and callback Location = model (force_redirect x request-target forms)", "CasesC17flow.idx", ":prompt-flow"),
     ("c17_logout", "logout Location = model logout_location", "CasesC17logout.idx", ":logout"),
+    ("c17_ext", "daemons with one string knob of the base configuration set to a URL (found by reflection, loaded by the real loader): Location = model location_ext (which ignores the knob)", "CasesC17ext.idx", ":url-knob"),
     ("c17_chan", "request channels other than the form/query value (cookies, headers, JSON body, multipart field, path suffix) do not move the Location: = model req_location / req_federated_location", "CasesC17chan.idx", ":channel"),
 ]
 
@@ -31,12 +33,13 @@ def run(ctx):
     ctx.audit("Props.C17", ["c17_location", "c17_filter", "c17_old_filter_refuted", "c17_federated", "c17_prompt_flow",
                             "c17_unfiltered_prompt_refuted", "c17_logout", "c17_logout_ctl_refuted",
                             "c17_other_channels_ignored", "c17_channels_same_origin", "c17_no_form_value_profile",
-                            "c17_cookie_fallback_refuted"])
+                            "c17_cookie_fallback_refuted", "c17_external", "c17_external_ignored", "c17_no_external",
+                            "c17_strip_resolve_refuted"])
     if gen:
         compile_gen(ctx, gen)
         ctx.gen_obligations("Obl_C17.v", ["c17_sinks", "c17_pending", "c17_sinks_nonempty", "c17_filter_reads", "c17_filter_reads_nonempty"])
     ok, result, log = ctx.go_harness("cmd/keymasterd", "TestVerif_C17",
-                                     ["kmd/common.go", "kmd/c17.go", os.path.join(ctx.work, "gen", "mux_gen.go")])
+                                     ["kmd/common.go", "kmd/c17.go", "kmd/c17ext.go", os.path.join(ctx.work, "gen", "mux_gen.go")])
     if result is not None:
         res = ctx.eval_cases(os.path.join(ctx.work, "CasesC17.v"), "c17_location_vs_http.Redirect")
         if res is not None:
@@ -63,7 +66,7 @@ def run(ctx):
                         i = int(m)
                         line = lines[i] if i < len(lines) else "case %d" % i
                         ctx.hits.append({"key": "C17:model-oracle:offorigin" + shape, "oracle": "model-oracle: " + prefix + "_offorigin",
-                                         "what": "the observed Location is not same-origin as evaluated in Coq (Model.Dest.same_origin) while the model's Location for the same input is: " + line[:300],
+                                         "what": "the observed Location is not same-origin (url-knob list: neither same-origin nor under the configured URL, Model.DestExt.allowed) as evaluated in Coq (Model.Dest.same_origin) while the model's Location for the same input is: " + line[:300],
                                          "case": line})
             mm = res.get("c17_page_mismatches")
             label = "hidden login_destination of the login page served for an unauthenticated GET = ensureHTMLSafeLoginDestination(page_destination)"
@@ -81,6 +84,7 @@ def run(ctx):
                        "url.Parse success/failure enters the model as the parse_fails input computed by the real parser",
                        "r.URL.String() of the request (prompt flow) is an input computed by net/http's own request-line parser",
                        "whether a multipart field is part of r.Form (the handler parsed the form before FormValue or not) is net/http's decision: both outcomes are admitted by the channel correspondence",
+                       "URL-valued configuration knobs: only string fields of the base configuration that are empty in the test configuration are set (one per daemon, at most 12 in the quick tier); a knob the real loader refuses is counted, not reported",
                        "c17_logout: the user name of a session contains no control byte other than tab/CR/LF (whatever the password backend / identity provider admitted); c17_logout_ctl_refuted shows the hypothesis is needed"]
     return ctx.finish("bin/build-coq && coqc Audit/Obl/Cases files (see lib/core.py); go test -overlay TestVerif_C17", TRUSTED)
 
